@@ -66,17 +66,17 @@ class Model:
         b = self.f.bodies.get(id_)
         return Body(b) if b else None
 
-    def body_inlined(self, def_path, prefer_mono=True, depth=3):
+    def body_inlined(self, def_path, prefer_mono=True, depth=3, only_mut=False):
         """the body with crate-local private helpers inlined (rules about what a function does on every path must not depend on
         whether a piece of it was moved into a helper)"""
-        key = ('inl', def_path, prefer_mono, depth)
+        key = ('inl', def_path, prefer_mono, depth, only_mut)
         if key in self._bodies:
             return self._bodies[key]
         b0 = self.body(def_path, prefer_mono)
         r = None
         if b0 is not None:
             import inline
-            r = Body(inline.inlined(self.f, b0.b, depth))
+            r = Body(inline.inlined(self.f, b0.b, depth, (), only_mut))
         self._bodies[key] = r
         return r
 
